@@ -589,8 +589,15 @@ def run_property(mod, tier: str, seed: int) -> int:
 
     # 3. correspondence inside Coq
     terms, term_idx = [], []
+    unprintable = []   # (case index, reason): the generated INPUT is inside the model's encoding by construction, so a value the term
+    # printer cannot encode comes from what the implementation returned -- the model and the code disagree on that case (reported as a
+    # correspondence mismatch with the case as replay, not as a harness error: under a changed implementation this is a detection)
     for i, (c, o) in enumerate(zip(cases, observed)):
-        t = mod.coq_case(c, o)
+        try:
+            t = mod.coq_case(c, o)
+        except HarnessError as e:
+            unprintable.append((i, str(e)))
+            continue
         if t is not None:
             terms.append(t)
             term_idx.append(i)
@@ -599,7 +606,8 @@ def run_property(mod, tier: str, seed: int) -> int:
         mism, corr_errors = coq_eval_cases(prop, terms)
     else:
         corr_errors = ["model not built: correspondence skipped"]
-    mism_cases = [term_idx[j] for j in mism]
+    mism_cases = [term_idx[j] for j in mism] + [i for i, _ in unprintable]
+    unprintable_why = dict(unprintable)
 
     # 4. oracle on everything the implementation produced
     failures: list[Failure] = []
@@ -672,6 +680,11 @@ def run_property(mod, tier: str, seed: int) -> int:
             "build_log_tail": audit["log"][-2000:] if broken_proof else "",
         }
         for i in mism_cases[:5]:
+            if i in unprintable_why:
+                detail["correspondence_mismatches"].append({
+                    "case": cases[i], "implementation_observed": observed[i],
+                    "model_output": f"the observation is outside the model's encoding: {unprintable_why[i]}"})
+                continue
             t = mod.coq_case(cases[i], observed[i])
             detail["correspondence_mismatches"].append({
                 "case": cases[i], "implementation_observed": observed[i],
